@@ -371,6 +371,10 @@ func Run(sc Scenario) *Outcome {
 	}
 }
 
+// RealSighup, if set, replaces the direct call of the reload hook: it must make a real SIGHUP reach this process and
+// return when the total of slogagent_reloads_total has grown (total is a function that reads it).
+var RealSighup func(total func() float64)
+
 // ScenarioBudget bounds one scenario (normal scenarios take 0.1-3 s).
 var ScenarioBudget = 150 * time.Second
 
@@ -455,7 +459,12 @@ func runScenario(sc Scenario) *Outcome {
 					_ = os.WriteFile(confPath, []byte(configText(sc, filepath.Join(root, "buf"), addrs, rs.Variant)), 0o644)
 					before := vh.Gather(prometheus.DefaultGatherer)
 					ro := ReloadObs{Gen: gi, Variant: rs.Variant, Start: time.Now()}
-					if f := vh.Protect(ag.reload); f != nil { // in the agent this is the SIGHUP goroutine: the process dies
+					trigger := ag.reload
+					if RealSighup != nil {
+						// child-process mode: the parent delivers a real SIGHUP; wait until the handler has finished a reload
+						trigger = func() { RealSighup(func() float64 { return vh.Gather(prometheus.DefaultGatherer).Sum("slogagent_reloads_total") }) }
+					}
+					if f := vh.Protect(trigger); f != nil { // in the agent this is the SIGHUP goroutine: the process dies
 						f.Key = "reload:" + f.Key
 						reloadCrash = f
 						return
